@@ -22,6 +22,7 @@ mod c17;
 mod c18;
 mod c19;
 mod c20;
+mod life;
 mod util;
 
 use util::*;
@@ -62,6 +63,7 @@ fn main() {
         "C18" => c18::replay(&cases, &mut rep),
         "C19" => c19::replay(&cases, &mut rep),
         "C20" => c20::replay(&cases, &mut rep),
+        "LIFE" => life::replay(&cases, &mut rep),
         p => tool_error(&format!("no replay driver for {p}")),
       }
       rep.write(&args[4]);
